@@ -579,4 +579,19 @@ theorem C12_wide_witnesses :
     circuitOpNat .shr .int 65 (-(2 ^ 64)) 1 = 2 ^ 64 + 2 ^ 63 := by
   decide +kernel
 
+/-! ## Constants shared by name -/
+
+/-- Re-widening of a constant used at a second width (`Program.Circuit` after repo commit 3c18dfa, model
+`rewiden`, tied by the `alias` correspondence lines).  The earlier defect is gone: after `uint8(200)`, the
+constant `int32(200)` is 200 (it was sign-extended from the 8 wires of the first instance to -56).  What
+remains: the sign is taken from the constant's own `mpa` size, so a NON-NEGATIVE value whose bit 31 (or 63)
+is set is read as negative when re-widened as a `TInt`: after `uint32(4294967295)`, `int33(4294967295)` is
+0x1ffffffff = -1.  (`int33(-1)` is the same `ssa.Value` — finding C12-typed-negative-constant-not-extended —
+so no re-widening rule can be right for both.) -/
+theorem C12_rewiden_witness :
+    aliasOutputs .uint 8 .int 32 200 200 = .ok (200, 200) ∧
+    aliasOutputs .int 7 .uint 32 (-4) 4294967292 = .ok (124, 4294967292) ∧
+    aliasOutputs .uint 32 .int 33 4294967295 4294967295 = .ok (4294967295, 8589934591) := by
+  decide +kernel
+
 end Mpc
